@@ -82,8 +82,8 @@ def run(tier, seed, selftest=False, replay=None):
         "samples": [{"table": sample["id"], "target": show(sample["u"][r0["i"] - 1]), "pattern": show(sample["ps"][r0["j"] - 1]),
                      "same_type": r0["same"], "result": {a: show(b) for a, b in r0["sigma"].items()}}],
         "evaluations": calls, "distinct_nontrivial": nonempty,
-        "rule": "for every well-formed table of the HTypesGen family TLC emits the ground universe (targets) and 26 pattern terms over X, "
-                "Y : Number, Z : A<X> (repeated, bounded, projected, nested variables); unify_types is called on every (target, pattern) pair in "
+        "rule": "for every well-formed table of the HTypesGen family TLC emits the ground universe (targets) and 33 pattern terms over X, "
+                "Y : Number, I : Int, Z : A<X> (repeated, bounded, projected, nested variables); unify_types is called on every (target, pattern) pair in "
                 "both modes; evaluations = calls, distinct_nontrivial = calls with a non-empty result, each validated by TLC as a unifier (UnifierOK)",
         "tables": len(cases), "exhaustive": tier != "quick",
     }, time.time() - t0, len(verdict.violations),
